@@ -3,7 +3,7 @@
    time-dependent) functions subject only to the solver contract; M, dt, nodes, Q, preconditioner
    matrices, node values, right-hand sides and tau are all universally quantified. *)
 From Coq Require Import List Arith Bool ZArith QArith Qcanon Ring.
-From PySDC Require Import Model.Sweep Model.SweepExec Proofs.SweepProofs.
+From PySDC Require Import Model.Sweep Model.Verlet Model.SweepExec Proofs.SweepProofs Proofs.VerletProofs.
 Import ListNotations.
 Local Open Scope nat_scope.
 
@@ -110,6 +110,22 @@ Section C02.
                 +! dt *! sumf (fun j => (Q m j -! QE m j) *! f j 1 x) 1 M +! tauval tau m x.
   Proof. exact (mass_sweep_matrix_form kO kI kadd kmul ksub kopp Rth M dt t0 nodes Q solve feval). Qed.
 
+
+  (* verlet.update_nodes (second-order problems): position / velocity block form with Qx, QT, QQ, for every M,
+     matrices, node data, tau and ANY acceleration function of (time, position, velocity) *)
+  Theorem C02_verlet_block_form : forall (QQ Qx QT : nat -> nat -> K) (acc : K -> V -> V -> V) (p v f : nat -> V) taup tauv,
+    let r := verlet_update kO kadd kmul ksub M dt t0 nodes Q QQ Qx QT acc p v f taup tauv in
+    let pn := fst (fst r) in let vn := snd (fst r) in let fn := snd r in
+    (forall j, j = 0 \/ M < j -> pn j = p j /\ vn j = v j /\ fn j = f j) /\
+    forall m, 1 <= m <= M -> forall x,
+      pn m x -! dt *! dt *! sumf (fun j => Qx m j *! fn j x) 1 (m - 1)
+      = p 0 x +! dt *! sumf (fun j => Q m j) 1 M *! v 0 x
+              +! dt *! dt *! sumf (fun j => (QQ m j -! Qx m j) *! f j x) 1 M +! tauval taup m x
+      /\
+      vn m x -! dt *! sumf (fun j => QT m j *! fn j x) 1 m
+      = v 0 x +! dt *! sumf (fun j => (Q m j -! QT m j) *! f j x) 1 M +! tauval tauv m x.
+  Proof. exact (fun QQ Qx QT acc => verlet_block_form kO kI kadd kmul ksub kopp Rth M dt t0 nodes Q QQ Qx QT acc). Qed.
+
   Theorem C02_integrate_is_dtQF : forall np (f : nat -> nat -> V) m x,
     integrate kO kadd kmul M dt Q np f m x = dt *! sumf (fun j => Q m j *! ftot kO kadd np (f j) x) 1 M.
   Proof. exact (integrate_is_dtQF kO kI kadd kmul ksub kopp Rth M dt Q). Qed.
@@ -136,6 +152,7 @@ Print Assumptions C02_explicit_matrix_form.
 Print Assumptions C02_multi_implicit_two_stage_form.
 Print Assumptions C02_runge_kutta_stage_form.
 Print Assumptions C02_imex_mass_matrix_form.
+Print Assumptions C02_verlet_block_form.
 Print Assumptions C02_integrate_is_dtQF.
 Print Assumptions C02_end_point_copy.
 Print Assumptions C02_end_point_quadrature.
